@@ -1,12 +1,14 @@
 """C07 - sort and repair tools reorder without changing content; the result loads."""
 LEVEL = "other"
-EXPLANATION = ("Bounded: over seeded small collections with row and id shuffles, sort() permutes rows without changing content "
+EXPLANATION = ("Proved (loop-free, full domain): each sorter comparator returns the sign of the lexicographic comparison of its documented key (cmp_edge: time[parent], parent, child, left; cmp_site: position, id; cmp_mutation: site, older known time first, id; cmp_mutation_canonical; cmp_migration), and lemmas show these spec functions are strict weak orders on the keys valid tables hold. Bounded: over seeded small collections with row and id shuffles, sort() permutes rows without changing content "
                "(references resolved to row content), sort + build_index + compute_mutation_parents loads and encodes the same "
                "trees and genotypes, compute_mutation_parents equals the nearest mutation above recomputed from the tables "
                "(including regions where edges only end and tables without edges), partial sorts keep the rows before the "
                "bookmark with their metadata, deduplicate_sites keeps the first of each run and every mutation. Proved: the "
                "integrity gate the result must pass (C02).")
-C_FUNCS = [("tables.c", "tsk_table_collection_check_integrity")]
+C_FUNCS = [("tables.c", "tsk_table_collection_check_integrity"), ("tables.c", "cmp_edge"), ("tables.c", "cmp_site"),
+           ("tables.c", "cmp_mutation"), ("tables.c", "cmp_mutation_canonical"), ("tables.c", "cmp_migration")]
+LEMMAS = ["lemmas.orders:strict_weak_orders"]
 BOUNDED = [{"name": "sort_content", "module": "standins.c07_sort", "timeout": 900}]
 UNVERIFIED = ["cmp_* comparators, tsk_table_sorter_sort_*, deduplicate_sites, compute_mutation_parents (bounded only)"]
 ASSUMPTIONS = []
